@@ -56,6 +56,25 @@ def regenerate():
 # --------------------------------------------------------------------------- T3
 
 
+def racah_transcription(a, m1, b, m2, c, M) -> float:
+    """Line-by-line transcription of `Ampverif.Lemmas.C03CG.racah` (doubled arguments)."""
+
+    def inv_f(x):
+        return 0.0 if x < 0 or x % 2 else 1.0 / math.factorial(x // 2)
+
+    def f_h(x):
+        return 0.0 if x < 0 or x % 2 else float(math.factorial(x // 2))
+
+    if M != m1 + m2:
+        return 0.0
+    big_a = (c + 1) * f_h(c + a - b) * f_h(c - a + b) * f_h(a + b - c) * inv_f(a + b + c + 2)
+    big_b = f_h(c + M) * f_h(c - M) * f_h(a - m1) * f_h(a + m1) * f_h(b - m2) * f_h(b + m2)
+    total = sum((-1) ** k * inv_f(2 * k) * inv_f(a + b - c - 2 * k) * inv_f(a - m1 - 2 * k) * inv_f(b + m2 - 2 * k)
+                * inv_f(c - b + m1 + 2 * k) * inv_f(c - a - m2 + 2 * k) for k in range(a + b + 1))
+    return math.sqrt(big_a) * math.sqrt(big_b) * total
+
+
+
 def cg_step(chk: common.Check, rng, n_samples: int):
     try:
         table = regenerate()
@@ -89,6 +108,16 @@ def cg_step(chk: common.Check, rng, n_samples: int):
             if bad <= 2:
                 chk.broken_correspondence("cg-table", {"key": key, "table": got, "racah": (sign, str(sq))})
     chk.info("cg_table_validation_samples", n_samples)
+    # the formula the all-spin theorem is about (transcription of Lemmas/C03CG.lean `racah`) reproduces the table
+    worst = 0.0
+    for key, (sg, num, den) in flat:
+        worst = max(worst, abs(racah_transcription(*key) - sg * math.sqrt(num / den)))
+    chk.info("racah_formula_vs_table_max_abs_diff", worst)
+    chk.coverage["obligations"] += 1
+    if worst < 1e-12:
+        chk.coverage["discharged"] += 1
+    else:
+        chk.broken_correspondence("cg-table", f"Racah's formula (as stated in Lean) differs from the SymPy table by {worst}")
     return table
 
 
@@ -395,6 +424,70 @@ def _compare_intensities(model_h, hvals, model_c, cvals, rng, n_points):
     return None
 
 
+def outside_default_observation(chk: common.Check, corpus):
+    """Machine-produced record (NO verdict): with the canonical builder and the non-default naming flags
+    insert_child_helicities=True, insert_ls_combinations=False the partner mapping becomes active, so the explicit
+    parity prefactor is applied on top of the Clebsch-Gordan factors that already carry the parity sign. For every
+    pair of helicity configurations that share a coefficient and differ by reversed daughter helicities we record the
+    effective factor (prefactor x sum over LS of the CG products) multiplying the shared coefficient."""
+    flags = (False, True, False)
+    records = []
+    n_pairs = n_double = 0
+    for base in PAIRS:
+        rc = corpus.get(f"{base}.can.json")
+        if rc is None:
+            continue
+        obs = L.observe(rc, flags)
+        eff = defaultdict(complex)
+        rep = {}
+        for t, (cname, pre, aname) in zip(rc.transitions, obs["chains"]):
+            if pre is None or cname.startswith("<"):
+                continue
+            key = (cname, _state_key(t))
+            eff[key] += _cg_factor(obs["model"].components[f"A_{{{aname}}}"])
+            rep.setdefault(key, t)
+        by_coeff = defaultdict(list)
+        for (cname, sk), v in eff.items():
+            by_coeff[cname].append((sk, v))
+        for cname, lst in by_coeff.items():
+            for i in range(len(lst)):
+                for j in range(i + 1, len(lst)):
+                    t1, t2 = rep[(cname, lst[i][0])], rep[(cname, lst[j][0])]
+                    fl = L.flipped_nodes(t1, t2)
+                    if not fl:
+                        continue
+                    etas = [t1.interactions[n].parity_prefactor for n in fl]
+                    if any(e is None for e in etas) or abs(lst[i][1]) < 1e-12:
+                        continue
+                    required = 1
+                    for e in etas:
+                        required *= int(e)
+                    measured = lst[j][1] / lst[i][1]
+                    n_pairs += 1
+                    if abs(measured - required) > 1e-9:
+                        n_double += 1
+                        if len(records) < 6:
+                            hel = lambda t: {e: str(s.spin_projection) for e, s in sorted(t.states.items())}  # noqa: E731
+                            records.append({
+                                "reaction": base, "coefficient": cname, "flipped_nodes": list(fl),
+                                "eta_of_flipped_nodes": [int(e) for e in etas],
+                                "helicities_1": hel(t1), "effective_factor_1": [lst[i][1].real, lst[i][1].imag],
+                                "helicities_2": hel(t2), "effective_factor_2": [lst[j][1].real, lst[j][1].imag],
+                                "measured_ratio": [measured.real, measured.imag], "ratio_required_by_parity": required,
+                            })
+    chk.info("outside_default_configuration_observation", {
+        "configuration": "CanonicalAmplitudeBuilder, insert_parent_helicities=False, insert_child_helicities=True, "
+                         "insert_ls_combinations=False (non-default; coefficient names also merge all LS terms)",
+        "what": "effective factor = parity prefactor x sum over LS of CG(L0;S d|J d) CG(s1 l1;s2 -l2|S d) multiplying a shared "
+                "coefficient; parity requires ratio = product of eta over the flipped nodes; a different ratio means the parity "
+                "sign is applied twice (prefactor and CG)",
+        "partner_pairs_measured": n_pairs,
+        "pairs_whose_ratio_differs_from_parity": n_double,
+        "examples": records,
+        "verdict": "none (outside the default configuration; recorded only)",
+    })
+
+
 # --------------------------------------------------------------------------- the property object
 
 
@@ -448,6 +541,11 @@ class C03Property:
         except Exception as e:  # noqa: BLE001
             found.append({"what": "the real code raised while the property was evaluated",
                           "error": "".join(traceback.format_exception(type(e), e, e.__traceback__))[-1500:]})
+        try:
+            outside_default_observation(chk, corpus)
+        except Exception as e:  # noqa: BLE001  (a record only: never a verdict)
+            chk.info("outside_default_configuration_observation",
+                     {"error": "".join(traceback.format_exception_only(type(e), e))[-300:]})
         seen = set()
         for f in found:
             if f["what"] in seen:
@@ -473,7 +571,8 @@ class C03Property:
         ]
         chk.assumptions += [
             "C03_ratio assumes the decidable name-consistency condition partnerInjective (evaluated per case; see coverage)",
-            "CG symmetry and the helicity-coupling parity theorem are bounded by the table (spins <= 3)",
+            "the all-spin CG theorems are about Racah's formula; its identity with SymPy's CG values is checked on the table "
+            "(spins <= 3) only",
         ]
         return chk.finish()
 
@@ -494,9 +593,13 @@ MANIFEST = {
         "Sigma~ -> K0 p~; C03_witness_guard: chi_c1 -> N~(1440)- p, N~ -> pi0 p~). Table-bounded (_partial, spins <= 3, exact "
         "SymPy values regenerated every run): C03_cg_parity_partial (CG mirror symmetry) and "
         "C03_helicity_coupling_parity_partial (F_{-l1,-l2} = eta F_{l1,l2} for helicity couplings expanded from ANY LS "
-        "coefficients with parity-allowed L — the 'equivalently' clause at the level of one node). The all-spin CG symmetry is "
-        "kept as C03_cg_parity_full_statement (not proved). The equality of the two intensities is checked numerically "
-        "(thorough tier), not proved."
+        "coefficients with parity-allowed L — the 'equivalently' clause at the level of one node). ALL spins: "
+        "C03_cg_parity_all_spins proves the mirror symmetry for Racah's closed formula (reflection k -> j1+j2-J-k of the sum) and "
+        "C03_helicity_coupling_parity_all_spins the coupling relation with those CG values; that SymPy's CG equals Racah's "
+        "formula is established on the table only (kernel: table symmetric; harness: a transcription of the Lean formula "
+        "reproduces all 2408 entries to 1e-12). The equality of the two intensities is checked numerically (thorough tier), "
+        "not proved. Evidence also carries a machine-produced `outside_default_configuration_observation` (canonical builder "
+        "with insert_child_helicities=True, insert_ls_combinations=False applies the parity sign twice) without a verdict."
     ),
     "level_note": (
         "Trusted: Lean kernel + Mathlib (axioms propext, Classical.choice, Quot.sound); the correspondence harness and the Lean "
